@@ -54,7 +54,7 @@ func (eng *Engine) isDeterministicExternal(name string) bool {
 func (eng *Engine) isNoop(name string) bool {
 	switch name {
 	case "(*sync.Mutex).Lock", "(*sync.Mutex).Unlock", "(*sync.RWMutex).Lock", "(*sync.RWMutex).Unlock", "(*sync.RWMutex).RLock", "(*sync.RWMutex).RUnlock",
-		"(*sync.WaitGroup).Done", "(*sync.WaitGroup).Add", "(*sync.Cond).Broadcast", "(*sync.Cond).Signal", "(*sync.Mutex).TryLock":
+		"(*sync.WaitGroup).Done", "(*sync.WaitGroup).Add", "(*sync.Cond).Broadcast", "(*sync.Cond).Signal", "(*sync.Mutex).TryLock", "(*sync.RWMutex).TryLock", "(*sync.RWMutex).TryRLock":
 		return true
 	}
 	return false
